@@ -234,6 +234,11 @@ func (m *CPU) Run(app risc.Application) (int, error) {
 			empty = false
 			eu.Cycle(euReq{cycle, app})
 		}
+		// The units being drained need room on the write bus
+		m.writeBus.Connect(cycle)
+		for _, wu := range m.writeUnits {
+			_ = wu.Cycle(wuReq{-1})
+		}
 		if empty {
 			break
 		}
